@@ -129,6 +129,10 @@ class DictProxy(dict):
         key, value = self._validate(key, value)
         super().setdefault(key, value)
 
+    def __ior__(self, other: KeyValuePairs) -> "DictProxy":  # type: ignore[override,misc]
+        self.update(other)
+        return self
+
     def __eq__(self, other: Any) -> bool:
         if other is None or not isinstance(other, dict):
             return False
